@@ -536,3 +536,100 @@ func (e *env) trexCases(r *hx.Rng, n int, next func() string) {
 		}
 	}
 }
+
+// ---------------------------------------------------------------- kind Q: DecryptInit on several entries / tracks
+
+// protectedEntry decodes one of the test inits, optionally retypes / decorates its sample entry (btrt, pasp, an
+// unknown box, a sinf of its own), protects it with InitProtect and returns the file (moov, trak, stsd entry).
+func (e *env) protectedInit(r *hx.Rng, codec byte, scheme string, protect bool) *mp4.File {
+	f, err := mp4.DecodeFile(bytes.NewReader(e.initFor(codec)))
+	must(err)
+	stsd := f.Init.Moov.Trak.Mdia.Minf.Stbl.Stsd
+	add := func(b mp4.Box) {
+		switch se := stsd.Children[0].(type) {
+		case *mp4.VisualSampleEntryBox:
+			se.AddChild(b)
+		case *mp4.AudioSampleEntryBox:
+			se.AddChild(b)
+		}
+	}
+	if r.Intn(3) == 0 {
+		add(&mp4.BtrtBox{})
+	}
+	if r.Intn(3) == 0 {
+		add(mp4.CreateUnknownBox("abcd", 8+3, []byte{1, 2, 3}))
+	}
+	if r.Intn(10) == 0 {
+		sinf := &mp4.SinfBox{}
+		sinf.AddChild(&mp4.FrmaBox{DataFormat: "zzzz"})
+		sinf.AddChild(&mp4.SchmBox{SchemeType: "cenc", SchemeVersion: 65536})
+		add(sinf)
+	}
+	if se, ok := stsd.Children[0].(*mp4.VisualSampleEntryBox); ok && r.Intn(3) == 0 {
+		if codec == 'a' {
+			se.SetType("avc3")
+		} else {
+			se.SetType("hev1")
+		}
+	}
+	if protect {
+		kid, _ := mp4.NewUUIDFromString(kidHex)
+		_, err = mp4.InitProtect(f.Init, r.Bytes(16, nil), genIV(r, r.Pick(8, 16)), scheme, kid, nil)
+		must(err)
+	}
+	return f
+}
+
+// entryCases: a moov assembled from entries / traks that InitProtect protected one by one (1-3 entries per stsd,
+// 1-3 traks, clear entries and clear traks in between, pssh boxes, an own sinf now and then): DecryptInit.
+func (e *env) entryCases(r *hx.Rng, n int, next func() string) {
+	for i := 0; i < n; i++ {
+		scheme := []string{"cenc", "cbcs"}[r.Intn(2)]
+		base := e.protectedInit(r, byte(r.Pick('a', 'h', 'u')), scheme, r.Intn(6) != 0)
+		moov := base.Init.Moov
+		stsd := moov.Trak.Mdia.Minf.Stbl.Stsd
+		for k := r.Pick(0, 0, 1, 2); k > 0; k-- { // more entries in the first trak
+			sch := scheme
+			if r.Intn(8) == 0 {
+				sch = []string{"cenc", "cbcs"}[r.Intn(2)]
+			}
+			g := e.protectedInit(r, byte(r.Pick('a', 'h', 'u')), sch, r.Intn(4) != 0)
+			stsd.AddChild(g.Init.Moov.Trak.Mdia.Minf.Stbl.Stsd.Children[0])
+		}
+		for k := r.Pick(0, 0, 1, 2); k > 0; k-- { // more traks
+			g := e.protectedInit(r, byte(r.Pick('a', 'h', 'u')), []string{"cenc", "cbcs"}[r.Intn(2)], r.Intn(4) != 0)
+			moov.AddChild(g.Init.Moov.Trak)
+		}
+		for k := r.Pick(0, 0, 1, 2); k > 0; k-- {
+			ps, err := mp4.NewPsshBox("edef8ba979d64acea3c827dcd51d21ed", nil, []byte{byte(k)})
+			must(err)
+			moov.AddChild(ps)
+		}
+		t := &idTable{m: map[mp4.Box]int{}}
+		before := moovString(t, moov)
+		var di mp4.DecryptInfo
+		var err error
+		p := hx.Try(func() { di, err = mp4.DecryptInit(base.Init) })
+		obs := classOf(p, err)
+		if obs == "ok" {
+			var infos []string
+			for _, ti := range di.TrackInfos {
+				if ti.Sinf == nil {
+					infos = append(infos, "clear")
+				} else {
+					tn := "-"
+					if ti.Sinf.Schi != nil {
+						tn = tencString(ti.Sinf.Schi.Tenc)
+					}
+					infos = append(infos, ti.Sinf.Schm.SchemeType+"="+tn)
+				}
+			}
+			is := "-"
+			if len(infos) > 0 {
+				is = strings.Join(infos, ",")
+			}
+			obs = "ok|" + moovString(t, moov) + "|" + is
+		}
+		emit("Q", next(), before, obs)
+	}
+}
